@@ -4,6 +4,9 @@
 
 mod enc;
 mod gen;
+mod par;
+mod parcmd;
+mod sched;
 mod stream;
 mod trace;
 
@@ -77,12 +80,14 @@ fn cmd_stream(a: &Args) {
 
 fn main() {
     // panics of the code under test are data: keep the default hook quiet unless asked
-    if std::env::var("FV_PANIC_VERBOSE").is_err() {
-        std::panic::set_hook(Box::new(|_| {}));
-    }
+    par::install_panic_hook();
     let a = Args::parse();
     match a.cmd.as_str() {
         "stream" => cmd_stream(&a),
+        "sched-replay" => parcmd::cmd_sched_replay(&a),
+        "sched-random" => parcmd::cmd_sched_random(&a),
+        "par-free" => parcmd::cmd_par_free(&a),
+        "sched-one" => parcmd::cmd_sched_one(&a),
         other => {
             eprintln!("unknown subcommand {other:?}");
             std::process::exit(2);
